@@ -59,6 +59,9 @@ var propMeta = map[string]propInfo{
 	"C19": {Pkg: "agent", Level: "exploration", QuickRuns: 3000, QuickBudgetS: 40,
 		Rule:  "one evaluation = one agent run with a generated hooks directory (1-5 entries: regular / symlink / directory / fifo, hidden names, ten permission patterns, directory modes incl. world-writable), hook behaviours fast / failing / hanging / unstartable, 1-3 clients issuing successful and failing management calls, clock steps of 1 ns .. 61 s incl. 5 s -/+ 1 ns around the rate-limit timer, optional config rewrite + SIGHUP to another base directory; the simexec start log (step, fake time, argv, env) is judged by the obligation tracker; distinct non-trivial = distinct (pick sequence, directory content, #changes, #rounds)",
 		Real:  realA, Stub: stubsA, Assumptions: append([]string{"5 s rate limit and 1 min hook time limit are the documented values (man page)", "symlinks have mode 0777 as on Linux"}, assumeA...)},
+	"C18": {Pkg: "agent", Level: "exploration", QuickRuns: 3000, QuickBudgetS: 40,
+		Rule:  "one evaluation = one run: (a) 1-3 generated YAML documents (valid document + 0-2 of 30 named mutations: deleted / duplicated / retyped fields, unknown keys at every level, ids 0 / negative / max, bad HMAC keys, cost 0 / 32, argon2id time / threads / length / memory edge values) judged by construction, every parameter set of an accepted document exercised (add + authenticate) under a recovering harness; (b) a running agent with clients in flight whose configuration file is rewritten (valid, invalid, torn prefix, unreadable; target directory valid / no admin / foreign file / missing) and SIGHUPed 1-3 times (1-3 coalescing signals each) at scheduler-chosen steps; after each processed reload the in-package configuration triple must be exactly the old or the new one as the reference predicate demands, then a behavioural probe (record written afterwards, cross-directory login); distinct non-trivial = distinct documents",
+		Real:  realA, Stub: stubsA, Assumptions: append([]string{"parameter values that make hashing arbitrarily slow or large are not generated", "duplicate parameter-set ids: the statement is silent, either outcome accepted", "a torn configuration file that happens to be well-formed is a configuration: the agent may switch to exactly what a fresh load of those bytes yields"}, assumeA...)},
 	"C08": {Pkg: "store", Level: "fault_enumeration", QuickRuns: 400, QuickBudgetS: 40,
 		Rule:  "one evaluation = one crash point: for a generated scenario (store with 1-4 reference-written users, aux data of every shape, one init/add/update) EVERY simfs operation boundary of the call and three prefixes inside every write is a crash point; at each, the process-kill image and the power-loss images (all of them when <= limit, else DFS prefix + sampled) are opened with a fresh store and judged by the recovery oracle; distinct non-trivial = distinct (configuration, operation, population, aux size) scenarios swept",
 		Real:  realL, Stub: stubsL, Assumptions: assumeL},
